@@ -271,6 +271,9 @@ _DEFAULT_LOGIN_TIMEOUT = 120        # 2 minutes
 _DEFAULT_KEEPALIVE_INTERVAL = 0     # disabled by default
 _DEFAULT_KEEPALIVE_COUNT_MAX = 3
 
+# Largest SSH packet that will be buffered
+_MAX_PACKET_LEN = 16*1024*1024      # 16 MiB
+
 # Default channel parameters
 _DEFAULT_WINDOW = 2*1024*1024       # 2 MiB
 _DEFAULT_MAX_PKTSIZE = 32768        # 32 kiB
@@ -1632,6 +1635,10 @@ class SSHConnection(SSHPacketHandler, asyncio.Protocol):
             pktlen = self._packet[:4]
 
         self._pktlen = int.from_bytes(pktlen, 'big')
+
+        if self._pktlen > _MAX_PACKET_LEN:
+            raise ProtocolError('Invalid packet length')
+
         self._recv_handler = self._recv_packet
         return True
 
